@@ -129,6 +129,10 @@ func C04(c *Ctx) {
 			// the flags every combination of which must yield compiling code
 			fs = append(fs, "-cache")
 		}
+		if m%4 == 2 {
+			// entrypoint lists a user may well write: the first rule named explicitly, a name twice
+			fs = append(fs, "-alternate-entrypoints", []string{"@first,@last", "@last,@last", "@last,@first,@first"}[(m/4)%3])
+		}
 		flagSets = append(flagSets, fs)
 	}
 	profs := []*gast.Profile{pegProfile(), stateProfile(), errorProfile()}
